@@ -53,3 +53,35 @@ package payload
 //@ func (*Bin).Remove
 //@   on return assert removes-that-part: index >= 0 ==> len(bin.parts) == old(len(bin.parts)) - 1 && old(bin.parts[index]) == as(binned, *part) && bin.bytes == old(bin.bytes) - (old(bin.parts[index].end) - old(bin.parts[index].beg))
 //@   on return assert absent-is-noop: index < 0 ==> len(bin.parts) == old(len(bin.parts)) && bin.bytes == old(bin.bytes)
+
+// ---------------------------------------------------------------- wire format: header and framing (C13)
+
+//@ func (*part).GetRenamed inline
+//@ func (*part).GetFileSize inline
+//@ func (*part).GetFileTime inline
+//@ func (*part).GetFileHash inline
+//@ func (*part).GetSlice inline
+
+//@ func (*Bin).EncodeHeader
+//@   before call encoding/json.Marshal assert one-descriptor-per-part-in-order: len(meta) == len(bin.parts) && forall(k, 0, len(bin.parts), meta[k] != nil && meta[k].Beg == bin.parts[k].beg && meta[k].End == bin.parts[k].end && meta[k].Name == bin.parts[k].Binnable.GetName() && meta[k].Renamed == bin.parts[k].renamed && meta[k].Prev == bin.parts[k].Binnable.GetPrev() && meta[k].Hash == bin.parts[k].Binnable.GetHash() && meta[k].Size == bin.parts[k].Binnable.GetSize() && meta[k].Time == bin.parts[k].Binnable.GetTime() && meta[k].send == bin.parts[k].Binnable.GetSendSize())
+//@   loop 0 invariant 0 <= i && i <= len(bin.parts) && len(meta) == len(bin.parts) && !samearray(meta, bin.parts)
+//@   loop 0 invariant descriptors-so-far: forall(k, 0, i, meta[k] != nil && meta[k].Beg == bin.parts[k].beg && meta[k].End == bin.parts[k].end && meta[k].Name == bin.parts[k].Binnable.GetName() && meta[k].Renamed == bin.parts[k].renamed && meta[k].Prev == bin.parts[k].Binnable.GetPrev() && meta[k].Hash == bin.parts[k].Binnable.GetHash() && meta[k].Size == bin.parts[k].Binnable.GetSize() && meta[k].Time == bin.parts[k].Binnable.GetTime() && meta[k].send == bin.parts[k].Binnable.GetSendSize())
+
+//@ interface io.Reader.Read trusted
+//@   modifies elems(p)
+//@   ensures 0 <= r0 && r0 <= len(p)
+
+//@ func (*PartDecoder).Read
+//@   requires pr != nil && pr.meta != nil && 0 <= pr.pos && pr.pos <= pr.meta.End - pr.meta.Beg
+//@   ensures  never-beyond-announced: 0 <= n && n <= len(out) && pr.pos == old(pr.pos) + n && pr.pos <= pr.meta.End - pr.meta.Beg
+//@   ensures  eof-exactly-at-end: pr.pos == pr.meta.End - pr.meta.Beg ==> err == io.EOF
+//@   on return assert reads-the-shared-stream: called(io.Reader.Read) && lastarg(io.Reader.Read, 0) == pr.stream
+
+//@ func (*Decoder).Next
+//@   requires b != nil && 0 <= b.partIndex && b.partIndex <= len(b.meta)
+//@   ensures  hands-out-in-order: r1 == (old(b.partIndex) == len(b.meta)) && (r1 ==> r0 == nil && b.partIndex == old(b.partIndex)) && (!r1 ==> b.partIndex == old(b.partIndex) + 1 && typeis(r0, *PartDecoder) && as(r0, *PartDecoder).meta == b.meta[old(b.partIndex)] && as(r0, *PartDecoder).pos == 0 && as(r0, *PartDecoder).stream == b.stream && fresh(as(r0, *PartDecoder)))
+//@   modifies b.partIndex
+
+//@ func (*Decoder).GetParts
+//@   ensures descriptors-in-order: len(result) == len(b.meta) && forall(k, 0, len(b.meta), as(result[k], *fileMeta) == b.meta[k])
+//@   loop 0 invariant -1 <= rangeindex && rangeindex < len(b.meta) && len(parts) == len(b.meta) && forall(k, 0, rangeindex+1, as(parts[k], *fileMeta) == b.meta[k]) && forall(k, 0, len(b.meta), b.meta[k] == entry(b.meta[k]))
